@@ -104,11 +104,11 @@ def explore(ctx, R, W, fn, args, op):
     return outs
 
 
-def mkcheck(op, orders, has_x=False, out_bytes=0, delta=0, two_grids=False, gen=False, extra_scalar=False):
+def mkcheck(op, orders, has_x=False, out_bytes=0, delta=0, two_grids=False, gen=False, extra_scalar=False, only=None):
     def chk(ctx):
-        R = Result(op)
+        R = Result(op + ('' if only is None else '-' + only))
         nmax = ctx['nmax']
-        variants = ['shared'] + (['distinct'] if two_grids else [])
+        variants = [only] if only else (['shared'] + (['distinct'] if two_grids else []))
         for variant in variants:
             W = World(ctx['mod'], nmax); g = W.mk_grid('g'); grids = [g]
             h = g
@@ -138,7 +138,7 @@ def mkcheck(op, orders, has_x=False, out_bytes=0, delta=0, two_grids=False, gen=
             if outs and variant == 'shared':
                 control(R, outs[0].st, z3.BoolVal(False), op + '/path-feasible')
         return R
-    chk.__name__ = 'chk_' + op
+    chk.__name__ = 'chk_' + op + ('' if only is None else '_' + only)
     return chk
 
 
@@ -161,10 +161,29 @@ QUICK = [
 THOROUGH = [
     mkcheck('eval', [2], has_x=True),
     mkcheck('applyX1', [2], out_bytes=56, delta=1),
-    mkcheck('add', [2, 1], out_bytes=56, delta=1, two_grids=True),
+    mkcheck('add', [2, 1], out_bytes=56, delta=1, only='shared'),
+    mkcheck('add', [2, 1], out_bytes=56, delta=1, two_grids=True, only='distinct'),
     mkcheck('mul', [2, 1], out_bytes=56, delta=1, two_grids=True),
     mkcheck('splop', [1, 2], out_bytes=56, delta=1),
 ]
+
+
+def chk_generate1(ctx):
+    """generateBSplines<1>() on a shared const generator (knots = grid points with both ends doubled; grid sizes concrete,
+    points symbolic): allocation, findElement, recursion operators, Spline += and all destructors."""
+    R = Result('generate1')
+    for n in ctx.get('gen_sizes', [2]):
+        W = World(ctx['mod'], n); g = W.mk_grid('g', n=n)
+        gen = W.st.alloc(40, 'generator', 'input'); kn = W.st.alloc(8 * (n + 2), 'generator_knots', 'input')
+        W.ex.poke(W.st, gen, 0, bv(g['vec'].base)); W.ex.poke(W.st, gen, 8, bv(g['ctrl'].base))
+        W.ex.poke(W.st, gen, 16, bv(kn.base)); W.ex.poke(W.st, gen, 24, bv(kn.base + 8 * (n + 2))); W.ex.poke(W.st, gen, 32, bv(kn.base + 8 * (n + 2)))
+        for i, k in enumerate([g['pts'][0]] + g['pts'][:n] + [g['pts'][n - 1]]): W.ex.poke(W.st, kn, 8 * i, k)
+        mem = W.out('mem', 24)
+        outs = explore(ctx, R, W, '@w_generate1', [bv(mem.base), bv(gen.base)], 'generate1/n%d' % n)
+        W.vars['g_n'] = bv(n)
+        audit(ctx, R, W, outs, 'generate1', [g], (0, 2 * n + 2), lambda o: [])
+        if outs: control(R, outs[0].st, z3.BoolVal(False), 'generate1/path-feasible')
+    return R
 
 
 def chk_module_scan(ctx):
@@ -178,4 +197,4 @@ def chk_module_scan(ctx):
     return R
 
 
-CHECKS = QUICK + THOROUGH + [chk_module_scan]
+CHECKS = QUICK + THOROUGH + [chk_generate1, chk_module_scan]
